@@ -10,6 +10,7 @@ CONSTANTS
   FixNonRequest = FALSE
   FixLongWs = TRUE
   FarChoices = {TRUE, FALSE}
+  FixNullRequired = FALSE
   HasValidator = TRUE
   NilPointerSkipsValidation = TRUE
 INIT TableInit
